@@ -45,6 +45,7 @@ def _ctx(name):
             macrospec.MacroSpec('dd', [A('d()', 'a'), A('t+', 'b'), A('m', 'c')]),
             macrospec.MacroSpec('cs', [A(parsers.LatexCharsCommaSeparatedListParser(), 'a')]),
             macrospec.MacroSpec('cg', [A(parsers.LatexCharsGroupParser(), 'a')]),
+            macrospec.MacroSpec('vv', [A('v', 'a')]), macrospec.MacroSpec('vo', [A('[', 'a'), A('v', 'b')]),
         ], environments=[
             macrospec.EnvironmentSpec('ea', '[{'), macrospec.EnvironmentSpec('em', '{', is_math_mode=True),
             macrospec.EnvironmentSpec('eo', [A('[', 'a'), A('[', 'b')]),
@@ -473,7 +474,7 @@ SOUP_D = SMALL + ['\n', '$$', '--', '``', '*', '\\[', '\\]', '\\section', '\\ver
                   '\\end{verbatim}', '\\begin{x}', '\\end{x}', '\\begin{', '\\end{', '\\', '\\begin{array}', '\\end{array}',
                   '\\begin{enumerate}', '\\end{enumerate}', '\\left', '\\right', '(', ')', '\\href', '\\input',
                   '\\documentclass', '\\newcommand', '\\cite', '\\footnote', '\\begin{lstlisting}', '\\end{lstlisting}', '\\alpha', '^', '_']
-SOUP_C = SOUP_D + ['\\two', '\\opt', '\\star', '\\oo', '\\mm', '\\exl', '\\mk', '\\tk', '\\label', '\\tag', '\\dd', '+', '\\cs', '\\cg', ',',
+SOUP_C = SOUP_D + ['\\vv', '\\vv||', '\\vv{}', '|', '\\vo', '\\two', '\\opt', '\\star', '\\oo', '\\mm', '\\exl', '\\mk', '\\tk', '\\label', '\\tag', '\\dd', '+', '\\cs', '\\cg', ',',
                    '\\begin{ea}', '\\end{ea}', '\\begin{em}', '\\end{em}', '\\begin{eo}', '\\end{eo}', '!', '?[', '@']
 
 def _gen_doc(rng, ctx, budget, depth, math=False):
@@ -602,6 +603,9 @@ FIXED = [
     ('strict', 'd', 'a\\textbf{b$x^{2}$}%c\n {d}~--``'), ('strict', 'd', '\\begin{equation}\\frac{a}{\\sqrt[n]{b}}\\end{equation}'),
     ('strict', 'c', '\\two{a}{b}\\opt{x}\\opt[y]{x}\\star*{a}\\oo[1]{3}\\oo{3}\\mm{x^2}\\exl  %c\n \\alpha \\mk*+*{b}\\mk{c}\\tk\\label{x}\\tag{y} z'),
     ('strict', 'c', '\\dd(a)+{c}\\dd x\\begin{ea}[o]{m}body\\end{ea}\\begin{ea}{m}\\end{ea}\\begin{em}{x}y\\end{em}!{a} @[x]{y} @{z} ?[\\cs{a,b{c},d}\\cg{a{b}c}'),
+    # verbatim arguments of the pylatexenc-3 parser: a group holding one chars node, of length zero when the argument is empty
+    ('strict', 'c', 'a \\vv|| next to \\vv{} and \\vo[]{\\vv++}.'), ('strict', 'c', '\\vv|x=1| \\vv{a{b}c}\\vo[o]!!'), ('tol', 'c', '\\vv|'), ('tol', 'c', '\\vo[\\vv||'),
+    ('strict', 'c', '{}[]{{}}\\two{}{}\\opt[]{}'),
     ('tol', 'd', 'a}b'), ('tol', 'd', '\\begin{x}a'), ('tol', 'd', '{a'), ('tol', 'd', '$a'), ('tol', 'd', '\\frac{a'), ('tol', 'd', '\\begin{tabular}'),
     ('tol', 'd', '\\begin'), ('tol', 'd', '\\begin{a}\\end{b}'), ('tol', 'd', '\\textbf'), ('tol', 'd', '\\sqrt['), ('tol', 'd', '\\end{x}'),
     ('tol', 'd', '\\(a\\]'), ('tol', 'd', 'a\\textbf{b$}c'), ('tol', 'd', '\\begin{enumerate}['), ('tol', 'd', '\\verb'), ('tol', 'd', '\\begin{verbatim}x'),
